@@ -41,6 +41,11 @@ JOBS = {
         {"module": "MC_Nesting", "spec": "Spec", "invariants": ["InvRecipeParses", "InvReturns", "Emit"],
          "quick": {"constants": {"Reps": "{1, 2, 3, 8, 256, 4096}", "MaxSteps": 1}, "timeout": 600},
          "thorough": {"constants": {"Reps": "{1, 2, 3, 8, 256, 4096, 65536}", "MaxSteps": 2}, "timeout": 3000}},
+        {"module": "MC_Machine", "spec": "Spec", "invariants": ["InvTotal", "InvDecodeOutcome", "InvOneItem", "InvReencode", "InvFixed", "Emit"],
+         "quick": {"constants": {"MaxDepth": 3}, "timeout": 600}, "thorough": {"constants": {"MaxDepth": 4}, "timeout": 3000}},
+        {"module": "MC_Machine", "spec": "Spec", "invariants": ["InvTotal", "InvDecodeOutcome", "InvOneItem", "InvReencode", "InvFixed", "Emit"],
+         "thorough_only": True,
+         "thorough": {"constants": {"MaxDepth": 30}, "simulate": 3000, "depth": 30, "timeout": 3000}},
         {"kind": "cmd", "name": "fuzz", "cmd": ["fuzz", "--prop", "C01", "--seed", "{seed}", "--tier", "{tier}", "--summary", "{summary}",
                                                "--replay-dir", "{replays}"],
          "quick": {"timeout": 600}, "thorough": {"timeout": 3000}},
